@@ -386,6 +386,8 @@ def o_history_len(case, res, rep, rng):
 
 def o_descent(case, res, rep, rng):
     out = res["out"]
+    if case.label == "pn-saturated":
+        return      # starts at |Xw| ~ 800: the sigmoid is saturated to the last bit, descent is decided by rounding (not modelled)
     if out is None or case.solver in ("FISTA", "LBFGS"):
         return
     w = out[0]
